@@ -415,8 +415,10 @@ def evalArms (fuel : Nat) (prog : Prog) (env : Env) (v : Val) (arms : Arms) : M 
       | .ok (r, env1) => .ok (r, restore env env1)
     | none => evalArms fuel prog env v rest
 
-/-- evaluates the accessors of an assignment target -/
-def evalPath (fuel : Nat) (prog : Prog) (env : Env) (p : Path) : M (List Step × Env) :=
+/-- evaluates the accessors of an assignment target against the current value `cur` of the place, left to right as
+Rust builds a place: an index expression is evaluated, its bounds are checked, then the next accessor is looked at
+(in `a[i][j + 1] = v` an out-of-bounds `i` is reported before `j + 1` can overflow) -/
+def evalPath (fuel : Nat) (prog : Prog) (env : Env) (cur : Val) (p : Path) : M (List Step × Env) :=
   match fuel with
   | 0 => .error .fuel
   | fuel + 1 =>
@@ -427,18 +429,36 @@ def evalPath (fuel : Nat) (prog : Prog) (env : Env) (p : Path) : M (List Step ×
     | .error e => .error e
     | .ok (.int n, env1) =>
       if n < 0 then .error (.stuck "negative index") else
-      match evalPath fuel prog env1 rest with
-      | .error e => .error e
-      | .ok (steps, env2) => .ok (.index n.toNat :: steps, env2)
+      match cur with
+      | .array vs =>
+        match ValList'.get? vs n.toNat with
+        | none => .error (.panic .outOfBounds)
+        | some elem =>
+          match evalPath fuel prog env1 elem rest with
+          | .error e => .error e
+          | .ok (steps, env2) => .ok (.index n.toNat :: steps, env2)
+      | _ => .error (.stuck "index of a non-array")
     | .ok _ => .error (.stuck "index")
   | .tup i rest =>
-    match evalPath fuel prog env rest with
-    | .error e => .error e
-    | .ok (steps, env1) => .ok (.tup i :: steps, env1)
+    match cur with
+    | .tuple vs =>
+      match ValList'.get? vs i with
+      | none => .error (.stuck "tuple index")
+      | some c =>
+        match evalPath fuel prog env c rest with
+        | .error e => .error e
+        | .ok (steps, env1) => .ok (.tup i :: steps, env1)
+    | _ => .error (.stuck "tuple access")
   | .fld f rest =>
-    match evalPath fuel prog env rest with
-    | .error e => .error e
-    | .ok (steps, env1) => .ok (.fld f :: steps, env1)
+    match cur with
+    | .struct _ fvs =>
+      match FieldVals'.get? fvs f with
+      | none => .error (.stuck "struct field")
+      | some c =>
+        match evalPath fuel prog env c rest with
+        | .error e => .error e
+        | .ok (steps, env1) => .ok (.fld f :: steps, env1)
+    | _ => .error (.stuck "field access")
 
 /-- the value of a statement list is that of its last statement if that is an expression -/
 def evalStmts (fuel : Nat) (prog : Prog) (env : Env) (ss : StmtList) : M (Val × Env) :=
@@ -472,16 +492,16 @@ def evalStmt (fuel : Nat) (prog : Prog) (env : Env) (s : Stmt) : M (Val × Env) 
     | .error e => .error e
     | .ok (v, env1) => .ok (unit, (x, v) :: env1)
   | .assign x path e =>
-    /- as in Rust: the value first, then the index expressions of the place, then the bounds checks -/
+    /- as in Rust: the value first, then the place, accessor by accessor (`evalPath`) -/
     match evalExpr fuel prog env e with
     | .error e => .error e
     | .ok (v, env1) =>
-      match evalPath fuel prog env1 path with
-      | .error e => .error e
-      | .ok (steps, env2) =>
-        match env2.get? x with
-        | none => .error (.stuck s!"unbound {x}")
-        | some old =>
+      match env1.get? x with
+      | none => .error (.stuck s!"unbound {x}")
+      | some old =>
+        match evalPath fuel prog env1 old path with
+        | .error e => .error e
+        | .ok (steps, env2) =>
           match updateAt old steps v with
           | .error e => .error e
           | .ok new => .ok (unit, env2.set x new)
